@@ -61,4 +61,16 @@ META = {
   "note": "Known open finding: the stored context keeps initial_sec_key/initial_sec_nonce unmasked (see known_findings.json).",
   "technique": "runtime monitoring: byte-search and nonce-uniqueness monitors over histories + fault-injected seed-file operations with an independent decryptor",
  },
+ "C17": {
+  "text": "Runtime monitoring of the real TTL checks: a directed sweep of cutoffs around the wallet's observed height at every protocol step and role, and of refreshes around the cutoff with other pending transactions present, judged by an expiry oracle stated as implications.",
+  "design_ref": "DESIGN.md section 5 C17",
+  "note": "Directed boundary sweep (hundreds of cases), not random histories; other pending transactions are of the same wallet and role.",
+  "technique": "runtime monitoring: boundary sweep with an expiry oracle over real receive/finalize/invoice/refresh executions",
+ },
+ "C05": {
+  "text": "Runtime monitoring with a before/after oracle on real wallets: every pending kind at every stage is cancelled in the presence of other reservations and the complete observable state is compared with the snapshot taken just before the transaction existed.",
+  "design_ref": "DESIGN.md section 5 C05",
+  "note": "Directed enumeration of kinds/stages/addressing (hundreds of cases), parameters drawn per case.",
+  "technique": "runtime monitoring: exact-rollback oracle (state snapshot before create vs after cancel) over enumerated pending-transaction kinds",
+ },
 }
